@@ -272,7 +272,8 @@ class Broker(object):
         q = self.queues.get(qname)
         if not q or not q.messages:
             return []
-        return [c for c in q.consumers if c.channel.is_open and (c.prefetch == 0 or c.unacked < c.prefetch)]
+        # (a consumer whose ConsumeOk has not been handed to the client yet receives nothing: on the wire ConsumeOk precedes the first Deliver)
+        return [c for c in q.consumers if c.channel.is_open and getattr(c, "confirmed", True) and (c.prefetch == 0 or c.unacked < c.prefetch)]
 
     def take(self, qname, consumer):
         """Hand the head message of qname to consumer: returns the bound call to run (or None)."""
@@ -512,7 +513,14 @@ class Channel(object):
         b.declared.append(("consume", queue, bool(exclusive), arguments, self.prefetch))
         b.log("basic_consume", queue=queue, exclusive=bool(exclusive), arguments=arguments, consumer=consumer_tag,
               prefetch=self.prefetch, connection=self.connection.name)
-        self._confirm(callback, _Frame(_Method(consumer_tag=consumer_tag)))
+        if getattr(self.connection, "defer_confirms", False) and callback:
+            c.confirmed = False
+            def consume_ok(frame, c=c, callback=callback):
+                c.confirmed = True
+                callback(frame)
+            self._confirm(consume_ok, _Frame(_Method(consumer_tag=consumer_tag)))
+        else:
+            self._confirm(callback, _Frame(_Method(consumer_tag=consumer_tag)))
         return consumer_tag
 
     # -- publish / ack ---------------------------------------------------------------------------
